@@ -830,3 +830,214 @@ theorem cutEach_ok : ∀ ns : List T, atomicL ns = true → (unitsL ns).countP p
 end
 
 end SnootyVerif.Include
+
+
+namespace SnootyVerif.Include
+
+/-! ### reversed markers always raise -/
+
+theorem lastIdxFrom_shift (fl : List Bool) (d i : Nat) (h : fl.any id = true) :
+    lastIdxFrom d (i + 1) fl = lastIdxFrom d i fl + 1 := by
+  induction fl generalizing d i with
+  | nil => simp at h
+  | cons f fs ih =>
+    simp only [lastIdxFrom]
+    cases f
+    · simp only [List.any_cons, id, Bool.false_or] at h
+      simp only [Bool.false_eq_true, if_false]
+      exact ih d (i + 1) h
+    · simp only [if_true]
+      by_cases hfs : fs.any id = true
+      · -- the default is irrelevant once a later flag is found
+        have hd : ∀ (d1 d2 j : Nat), lastIdxFrom d1 j fs = lastIdxFrom d2 j fs := by
+          intro d1 d2 j
+          clear ih h
+          induction fs generalizing d1 d2 j with
+          | nil => simp at hfs
+          | cons g gs ihg =>
+            simp only [lastIdxFrom]
+            cases g
+            · simp only [List.any_cons, id, Bool.false_or] at hfs
+              simp only [Bool.false_eq_true, if_false]
+              exact ihg hfs d1 d2 (j + 1)
+            · simp
+        rw [hd (i + 1) i (i + 1 + 1)]
+        exact ih i (i + 1) hfs
+      · have hfs' : fs.any id = false := by simpa using hfs
+        rw [lastIdxFrom_none fs _ _ hfs', lastIdxFrom_none fs _ _ hfs']
+
+end SnootyVerif.Include
+
+
+namespace SnootyVerif.Include
+
+theorem lastIdxFrom_default_irrel (fl : List Bool) (h : fl.any id = true) (d1 d2 j : Nat) :
+    lastIdxFrom d1 j fl = lastIdxFrom d2 j fl := by
+  induction fl generalizing d1 d2 j with
+  | nil => simp at h
+  | cons g gs ih =>
+    simp only [lastIdxFrom]
+    cases g
+    · simp only [List.any_cons, id, Bool.false_or] at h
+      simp only [Bool.false_eq_true, if_false]
+      exact ih h d1 d2 (j + 1)
+    · simp
+
+theorem reversed_has (L : List Tag) (h : reversed L = true) : L.any pE = true ∧ L.any pS = true := by
+  induction L with
+  | nil => simp [reversed] at h
+  | cons a L ih =>
+    simp only [reversed, Bool.or_eq_true, Bool.and_eq_true] at h
+    rcases h with ⟨h1, h2⟩ | h
+    · simp [h1, h2]
+    · have := ih h
+      simp [this.1, this.2]
+
+/-- prepending an unflagged element keeps the raise -/
+theorem finish_cons_error (r : R) (rs : List R) (hrS : fS r = false) (hrE : fE r = false)
+    (hS : rs.any fS = true) (hE : rs.any fE = true) (m : String) (h : finish rs = .error m) :
+    ∃ m', finish (r :: rs) = .error m' := by
+  unfold finish lastIdx at h ⊢
+  simp only at h ⊢
+  have aS : (rs.map (·.2.1)).any id = true := by rw [any_map_id]; exact hS
+  have aE : (rs.map (·.2.2)).any id = true := by rw [any_map_id]; exact hE
+  have e1 : lastIdxFrom 0 0 ((r :: rs).map (·.2.1)) = lastIdxFrom 0 0 (rs.map (·.2.1)) + 1 := by
+    simp only [List.map_cons, lastIdxFrom]
+    have : r.2.1 = false := hrS
+    simp only [this, Bool.false_eq_true, if_false]
+    exact lastIdxFrom_shift _ 0 0 aS
+  have e2 : lastIdxFrom (r :: rs).length 0 ((r :: rs).map (·.2.2)) = lastIdxFrom rs.length 0 (rs.map (·.2.2)) + 1 := by
+    simp only [List.map_cons, lastIdxFrom]
+    have : r.2.2 = false := hrE
+    simp only [this, Bool.false_eq_true, if_false]
+    rw [lastIdxFrom_default_irrel _ aE (r :: rs).length rs.length (0 + 1)]
+    exact lastIdxFrom_shift _ rs.length 0 aE
+  rw [e1, e2]
+  split at h
+  · rename_i hgt
+    have : lastIdxFrom 0 0 (rs.map (·.2.1)) + 1 > lastIdxFrom rs.length 0 (rs.map (·.2.2)) + 1 := by omega
+    simp only [this, if_true]
+    exact ⟨_, rfl⟩
+  · cases h
+
+/-- an end flag on the first element and a start flag later: raise -/
+theorem finish_E_then_S (r : R) (rs : List R) (hrE : fE r = true) (hS : rs.any fS = true) (hE : rs.any fE = false) :
+    ∃ m, finish (r :: rs) = .error m := by
+  unfold finish lastIdx
+  simp only
+  have aS : (rs.map (·.2.1)).any id = true := by rw [any_map_id]; exact hS
+  have aE : (rs.map (·.2.2)).any id = false := by rw [any_map_id]; exact hE
+  have e2 : lastIdxFrom (r :: rs).length 0 ((r :: rs).map (·.2.2)) = 0 := by
+    simp only [List.map_cons, lastIdxFrom]
+    have : r.2.2 = true := hrE
+    simp only [this, if_true]
+    exact lastIdxFrom_none _ _ _ aE
+  have e1 : 1 ≤ lastIdxFrom 0 0 ((r :: rs).map (·.2.1)) := by
+    simp only [List.map_cons, lastIdxFrom]
+    have hr := lastIdxFrom_range (rs.map (·.2.1)) (if r.2.1 = true then 0 else 0) (0 + 1)
+    rcases hr with hr | ⟨_, h2, _⟩
+    · -- found a flag, so the result cannot be the default unless … use the shift form instead
+      have := lastIdxFrom_shift (rs.map (·.2.1)) (if r.2.1 = true then 0 else 0) 0 aS
+      omega
+    · omega
+  rw [e2]
+  have : lastIdxFrom 0 0 ((r :: rs).map (·.2.1)) > 0 := by omega
+  simp only [this, if_true]
+  exact ⟨_, rfl⟩
+
+end SnootyVerif.Include
+
+
+namespace SnootyVerif.Include
+
+theorem reversed_singleton (tg : Tag) : reversed [tg] = false := by simp [reversed]
+
+/-- outcome of the loop at one sibling level when the markers are reversed: either the recursion
+already raised, or `finish` raises on the collected results -/
+def RaisesL (ns : List T) : Prop :=
+  (∃ m, cutEach ns = .error m) ∨ (∃ rs, cutEach ns = .ok rs ∧ ∃ m, finish rs = .error m)
+
+mutual
+theorem cutNode_reversed : ∀ t : T, atomic t = true → (units t).countP pS ≤ 1 → (units t).countP pE ≤ 1 →
+    reversed (units t) = true → ∃ m, cutNode t = .error m
+  | .node tg cs, ha, hcS, hcE, hrev => by
+    simp only [atomic, Bool.and_eq_true] at ha
+    by_cases hm : tg.isM = true
+    · simp [units, hm, reversed_singleton] at hrev
+    · have hm' : tg.isM = false := by simpa using hm
+      cases cs with
+      | nil => simp [units, hm', reversed_singleton] at hrev
+      | cons c cs' =>
+        have hu : units (.node tg (c :: cs')) = unitsL (c :: cs') := by simp [units, hm']
+        rw [hu] at hcS hcE hrev
+        rcases cutEach_reversed (c :: cs') ha.2 hcS hcE hrev with ⟨m, hm⟩ | ⟨rs, hrs, m, hfin⟩
+        · exact ⟨m, by simp [cutNode, hm]⟩
+        · exact ⟨m, by simp [cutNode, hrs, hfin]⟩
+theorem cutEach_reversed : ∀ ns : List T, atomicL ns = true → (unitsL ns).countP pS ≤ 1 → (unitsL ns).countP pE ≤ 1 →
+    reversed (unitsL ns) = true → RaisesL ns
+  | [], _, _, _, hrev => by simp [unitsL, reversed] at hrev
+  | n :: ns, ha, hcS, hcE, hrev => by
+    simp only [atomicL, Bool.and_eq_true] at ha
+    simp only [unitsL] at hcS hcE hrev
+    have cS := countP_append_le hcS
+    have cE := countP_append_le hcE
+    rw [List.countP_append] at hcS hcE
+    rw [reversed_append] at hrev
+    simp only [Bool.or_eq_true, Bool.and_eq_true] at hrev
+    -- whatever happens below, an error of `cutNode n` ends the loop with that error
+    cases hn : cutNode n with
+    | error m => exact Or.inl ⟨m, by simp [cutEach, hn]⟩
+    | ok r =>
+      have hfl := cutNode_flags n r hn
+      rcases hrev with (h1 | ⟨hE1, hS2⟩) | h3
+      · obtain ⟨m, hm⟩ := cutNode_reversed n ha.1 cS.1 cE.1 h1
+        rw [hn] at hm; cases hm
+      · -- end marker in `n`, start marker later
+        have hS1 : (units n).any pS = false := by
+          apply any_false_of_countP_zero
+          have := one_le_countP_of_any hS2
+          omega
+        have hE2 : (unitsL ns).any pE = false := by
+          apply any_false_of_countP_zero
+          have := one_le_countP_of_any hE1
+          omega
+        cases hns : cutEach ns with
+        | error m => exact Or.inl ⟨m, by simp [cutEach, hn, hns]⟩
+        | ok rs =>
+          have hfls := cutEach_flags ns rs hns
+          right
+          refine ⟨r :: rs, by simp [cutEach, hn, hns], ?_⟩
+          apply finish_E_then_S
+          · show r.2.2 = true
+            rw [hfl.2, hasE_units n ha.1]; exact hE1
+          · show rs.any (·.2.1) = true
+            rw [hfls.1, hasSL_units ns ha.2]; exact hS2
+          · show rs.any (·.2.2) = false
+            rw [hfls.2, hasEL_units ns ha.2]; exact hE2
+      · -- both markers later, reversed there
+        have hh := reversed_has _ h3
+        have hS1 : (units n).any pS = false := by
+          apply any_false_of_countP_zero
+          have := one_le_countP_of_any hh.2
+          omega
+        have hE1 : (units n).any pE = false := by
+          apply any_false_of_countP_zero
+          have := one_le_countP_of_any hh.1
+          omega
+        rcases cutEach_reversed ns ha.2 cS.2 cE.2 h3 with ⟨m, hm⟩ | ⟨rs, hrs, m, hfin⟩
+        · exact Or.inl ⟨m, by simp [cutEach, hn, hm]⟩
+        · have hfls := cutEach_flags ns rs hrs
+          right
+          refine ⟨r :: rs, by simp [cutEach, hn, hrs], ?_⟩
+          apply finish_cons_error r rs _ _ _ _ m hfin
+          · show r.2.1 = false
+            rw [hfl.1, hasS_units n ha.1]; exact hS1
+          · show r.2.2 = false
+            rw [hfl.2, hasE_units n ha.1]; exact hE1
+          · show rs.any (·.2.1) = true
+            rw [hfls.1, hasSL_units ns ha.2]; exact hh.2
+          · show rs.any (·.2.2) = true
+            rw [hfls.2, hasEL_units ns ha.2]; exact hh.1
+end
+
+end SnootyVerif.Include
